@@ -316,6 +316,21 @@ def _top_stepcode_frame(stderr):
     return None
 
 
+def _recursion_frame(stderr):
+    """for stack exhaustion the interrupted frame is arbitrary; name the recursion by the stepcode function
+    that occurs most often in the reported stack (ties: alphabetically first)"""
+    counts = {}
+    for m in _FRAME.finditer(stderr):
+        func, loc = m.group(2), m.group(3) or ""
+        if "/repo/" in loc or "/src/cl" in loc or "Sdai" in loc:
+            f = _norm_func(func)
+            counts[f] = counts.get(f, 0) + 1
+    if not counts:
+        return None
+    top = max(counts.values())
+    return sorted(f for f, c in counts.items() if c == top)[0]
+
+
 def end_class(end):
     """None when the child ended normally; otherwise a normalised symptom string."""
     e = end.get("end")
@@ -324,6 +339,8 @@ def end_class(end):
     st = end.get("stderr", "")
     if e in ("asan", "ubsan"):
         m = _SUMMARY.search(st)
+        if m and m.group(2) == "stack-overflow":
+            return "%s/stack-overflow@%s" % (e, _recursion_frame(st) or "?")
         frame = _top_stepcode_frame(st)
         if m:
             kind = m.group(2)
@@ -339,7 +356,11 @@ def end_class(end):
         frame = _top_stepcode_frame(st)
         return "signal/%s%s" % (end.get("sig"), ("@" + frame) if frame else "")
     if e == "cpu":
-        return "hang/cpu"
+        frame = None
+        if "HANG-SAMPLER" in st:
+            # innermost frame common to three stack samples that lies in stepcode (or generated schema code)
+            frame = _top_stepcode_frame(st[st.index("HANG-SAMPLER"):])
+        return "hang/cpu" + (("@" + frame) if frame else "")
     if e == "wall":
         return "hang/wall"
     if e == "exception":
